@@ -65,7 +65,36 @@ type jsonAmmo struct {
 	ID  int
 }
 
-// FileFor renders the ammo file of a kind holding exactly the given entries.
+// EOFLayouts: how the file ends (entry count and tags are the same in all of them).
+//
+//	0 every entry terminated by a newline (canonical)
+//	1 no final newline
+//	2 the final newline replaced by blanks and a CR (bytes after the last entry, not newline-terminated)
+//	3 extra blank lines (with blanks) after the last entry
+//
+// Layouts a format does not permit are mapped to one it does (grpc/json: a blank line is not a
+// JSON document, so only 0 and 1; scenario files are YAML: always 0).
+const EOFLayouts = 4
+
+func applyEOF(kind string, content string, eof int) string {
+	switch kind {
+	case "scenhttp", "scengrpc":
+		return content
+	case "grpcjson":
+		eof = eof % 2
+	}
+	switch eof % EOFLayouts {
+	case 1:
+		return strings.TrimSuffix(content, "\n")
+	case 2:
+		return strings.TrimSuffix(content, "\n") + " \t \r"
+	case 3:
+		return content + "\n  \n\t\n"
+	}
+	return content
+}
+
+// FileFor renders the ammo file of a kind holding exactly the given entries (canonical layout).
 func FileFor(kind string, es []Entry) (name string, content string) {
 	var b strings.Builder
 	switch kind {
@@ -181,8 +210,13 @@ func idxOf(s, prefix string) int {
 	return i
 }
 
-// Build constructs the provider of the given kind through its public constructor.
-func Build(kind string, preload bool, limit, passes int, es []Entry, chosen []string) (b *Built, err error) {
+// Build constructs the provider of the given kind through its public constructor (canonical file).
+func Build(kind string, preload bool, limit, passes int, es []Entry, chosen []string) (*Built, error) {
+	return BuildEOF(kind, preload, limit, passes, es, chosen, 0)
+}
+
+// BuildEOF is Build on a file that ends in the given EOF layout.
+func BuildEOF(kind string, preload bool, limit, passes int, es []Entry, chosen []string, eof int) (b *Built, err error) {
 	defer func() {
 		if r := recover(); r != nil {
 			b, err = nil, fmt.Errorf("panic in constructor: %v", r)
@@ -193,6 +227,7 @@ func Build(kind string, preload bool, limit, passes int, es []Entry, chosen []st
 	if name == "" {
 		return nil, fmt.Errorf("unknown kind %q", kind)
 	}
+	content = applyEOF(kind, content, eof)
 	if err := afero.WriteFile(fs, name, []byte(content), 0644); err != nil {
 		return nil, err
 	}
